@@ -518,32 +518,32 @@ func ruleCacheBuffersFresh(rule string) func(*Ctx) {
 				continue
 			}
 			info := f.Pkg.TypesInfo
+			fresh := func(e ast.Expr) bool {
+				e = ast.Unparen(e)
+				switch x := e.(type) {
+				case *ast.CompositeLit:
+					return true
+				case *ast.CallExpr:
+					if id, ok := ast.Unparen(x.Fun).(*ast.Ident); ok {
+						if b, ok := info.Uses[id].(*types.Builtin); ok && b.Name() == "make" {
+							return true
+						}
+					}
+					// []byte("...") conversion of a string allocates
+					if tv, ok := info.Types[x.Fun]; ok && tv.IsType() && len(x.Args) == 1 {
+						if at, ok := info.Types[x.Args[0]]; ok && isStringType(at.Type) {
+							return true
+						}
+					}
+				}
+				return false
+			}
 			for _, cs := range f.calls {
 				fn, ok := cs.Callee.(*types.Func)
 				if !ok || fn.Pkg() == nil || !strings.HasSuffix(fn.Pkg().Path(), "filebuffer") || fn.Name() != "New" || len(cs.Call.Args) != 1 {
 					continue
 				}
 				n++
-				fresh := func(e ast.Expr) bool {
-					e = ast.Unparen(e)
-					switch x := e.(type) {
-					case *ast.CompositeLit:
-						return true
-					case *ast.CallExpr:
-						if id, ok := ast.Unparen(x.Fun).(*ast.Ident); ok {
-							if b, ok := info.Uses[id].(*types.Builtin); ok && b.Name() == "make" {
-								return true
-							}
-						}
-						// []byte("...") conversion of a string allocates
-						if tv, ok := info.Types[x.Fun]; ok && tv.IsType() && len(x.Args) == 1 {
-							if at, ok := info.Types[x.Args[0]]; ok && isStringType(at.Type) {
-								return true
-							}
-						}
-					}
-					return false
-				}
 				good := fresh(cs.Call.Args[0])
 				if !good {
 					if v, ok := objOfIdent(info, cs.Call.Args[0]).(*types.Var); ok && !v.IsField() && v.Parent() != v.Pkg().Scope() {
@@ -555,6 +555,69 @@ func ruleCacheBuffersFresh(rule string) func(*Ctx) {
 				c.verdictIf(good, rule, f, fmt.Sprintf("filebuffer.New#%d", n), cs.Call.Pos(), "the buffer is allocated for this cache alone",
 					"the write cache is built on a slice that is not allocated for it ("+exprString(cs.Call.Args[0])+"): filebuffer.New adopts the slice, so caches created from the same slice share one backing array and two open handles overwrite each other's bytes")
 			}
+			// the package's own in-memory cache: a struct of pkg/cache built with a slice element
+			if f.RelPkg() != "pkg/cache" {
+				continue
+			}
+			walkOwn(f.Body(), func(nd ast.Node) {
+				cl, ok := nd.(*ast.CompositeLit)
+				if !ok {
+					return
+				}
+				st, ok := info.TypeOf(cl).Underlying().(*types.Struct)
+				if !ok {
+					return
+				}
+				if nt, ok := info.TypeOf(cl).(*types.Named); !ok || nt.Obj().Pkg() != f.Pkg.Types {
+					return
+				}
+				hasSlice := false
+				for i := 0; i < st.NumFields(); i++ {
+					if sl, ok := st.Field(i).Type().Underlying().(*types.Slice); ok {
+						if b, ok := sl.Elem().Underlying().(*types.Basic); ok && b.Kind() == types.Byte {
+							hasSlice = true
+						}
+					}
+				}
+				if !hasSlice {
+					return
+				}
+				n++
+				good := true
+				bad := ""
+				for i, el := range cl.Elts {
+					var val ast.Expr = el
+					var ft types.Type
+					if kv, ok := el.(*ast.KeyValueExpr); ok {
+						val = kv.Value
+						ft = info.TypeOf(kv.Value)
+					} else if i < st.NumFields() {
+						ft = st.Field(i).Type()
+					}
+					if ft == nil {
+						continue
+					}
+					if _, ok := ft.Underlying().(*types.Slice); !ok {
+						continue
+					}
+					if isNilIdent(info, val) {
+						continue
+					}
+					okv := fresh(val)
+					if !okv {
+						if v, ok := objOfIdent(info, val).(*types.Var); ok && !v.IsField() && v.Parent() != v.Pkg().Scope() {
+							if def := singleDefExpr(f, v); def != nil {
+								okv = fresh(def)
+							}
+						}
+					}
+					if !okv {
+						good, bad = false, exprString(val)
+					}
+				}
+				c.verdictIf(good, rule, f, fmt.Sprintf("memory buffer#%d", n), cl.Pos(), "the buffer is allocated for this cache alone",
+					"the write cache is built on a slice that is not allocated for it ("+bad+"): caches created from the same slice share one backing array, and two open handles overwrite each other's bytes")
+			})
 		}
 	}
 }
